@@ -225,7 +225,9 @@ class Gen:
 
     def specific_asset_id(self):
         m = self.m
-        return m.SpecificAssetId(self.string(1, 64), self.string(1, 100), self.opt(self.external_reference, 0.4),
+        self.counter += 1
+        # names made distinct: equal specific asset ids are one element of the (unordered) collection (neutral zone)
+        return m.SpecificAssetId(f"{self.string(1, 50)}#{self.counter}", self.string(1, 100), self.opt(self.external_reference, 0.4),
                                  **self.has_semantics_kwargs())
 
     def administration(self):
